@@ -5,12 +5,15 @@ import json
 
 from . import common
 from . import ants_common as ac
+from . import ants_mp as mp
 
 PROP = "C08"
 # the all-prompt timing bound (ants_get2_bound_all_prompt) is proved in its own files
-PROOFS = ac.PROOFS + ["proofs/AntsPromptProofs.v", "models/AntsPrompt.v"]
+PROOFS = ac.PROOFS + ["proofs/AntsPromptProofs.v", "models/AntsPrompt.v", "proofs/AntsOptionsProofs.v", "models/AntsOptions.v"]
 KINDS_QUICK = [("all-prompt", "prompt", 2400), ("non-cooperative(K1-class)", "stubborn", 1200), ("burst-busy", "burst", 1200),
-               ("retry-outcomes", "retry", 400)]
+               ("retry-outcomes", "retry", 400), ("sub-millisecond-timeouts", "tinyT", 300),
+               # several pools in one process, literal option lists (defaults omitted, non-positive values): ants_mp.py
+               ("multi-pool-option-lists(all-prompt)", "mp:prompt", 500), ("multi-pool-option-lists", "mp:mixed", 300)]
 
 
 def monitors(r):
@@ -36,7 +39,7 @@ def process(chk, stream, results):
                 chk.cov["traces_validated_against_impl"] += 1
                 if r.hd_ties:
                     chk.cov["tie_cases_allowed_set"] = chk.cov.get("tie_cases_allowed_set", 0) + 1
-        for key, what in monitors(r):
+        for key, what in mp.tag(r, monitors(r)):
             chk.monitor_fail(key, r.line, r.impl[:2000], what)
     if results:
         r = results[0]
@@ -44,7 +47,13 @@ def process(chk, stream, results):
 
 
 def gen_lines(rng, kind, n):
+    if kind.startswith("mp:"):   # several pools per process, literal option lists (ants_mp.py)
+        return [mp.script_line(*mp.gen_script(rng, kind[3:])) for _ in range(n)]
     return [ac.script_line(*ac.gen_script(rng, kind)) for _ in range(n)]
+
+
+def run_batch(chk, binary, kind, lines):
+    return mp.run_cases(chk, binary, lines) if kind.startswith("mp:") else ac.run_cases(chk, binary, lines)
 
 
 def run_streams(chk, binary, kinds, scale):
@@ -54,10 +63,15 @@ def run_streams(chk, binary, kinds, scale):
         res = ac.run_cases(chk, binary, corpus)
         process(chk, "corpus", res)
         allres += res
+    corpus = mp.corpus_lines(PROP)
+    if corpus:
+        res = mp.run_cases(chk, binary, corpus)
+        process(chk, "corpus", res)
+        allres += res
     for stream, kind, n in kinds:
         lines = gen_lines(chk.rng, kind, n * scale)
         for i in range(0, len(lines), 400):   # a fresh process every few hundred scenarios
-            res = ac.run_cases(chk, binary, lines[i:i + 400])
+            res = run_batch(chk, binary, kind, lines[i:i + 400])
             process(chk, stream, res)
             allres += res
     return allres
@@ -66,7 +80,7 @@ def run_streams(chk, binary, kinds, scale):
 def setup(chk):
     chk.trusted = common.BASE_TRUSTED + ac.TRUSTED
     chk.assumptions = ["effective task options: timeout > 0, retry > 0 (createTaskOptions ignores other values)",
-                       "handlers and the error callback do not panic; the pool is not garbage collected while tasks are pending (closeChan stays open)",
+                       "handlers and the error callback do not panic; closeChan stays open while tasks are pending (the model has no close event): since fix 83eb87d a task keeps its pool alive, which the multi-pool scripts exercise by dropping the pool handle with tasks outstanding and forcing GCs",
                        "instantaneous onError callback (the model's decision, onError and wg.Done are one step)"]
     chk.cov["rule"] = ("case = timed script (pool size 1-4; tasks with T in the ms range, R in 1..4, discardOnBusy on/off, error callback on/off; "
                        "per-attempt handler behaviour: duration T-1ns / T+1ns / around T/2, T/3, 2T / tiny, honours or ignores ctx, value/error) executed on the real pool "
@@ -75,7 +89,7 @@ def setup(chk):
                        "decisions, pickup time and max running handlers must agree. Streams: all-prompt (every handler honours ctx; the R*T bound monitor must hold outright), "
                        "non-cooperative (handlers ignoring ctx for 3-10 T; a bound excess of a prompt task counts as the known K1 class only if the model reproduces the release "
                        "instant with the dispatcher blocked in sendInnerCallback for exactly the implementation's lateness and the log shows all workers saturated with an overdue handler), "
-                       "bursts filling the queue (busy only if full). non-trivial = some task retried, failed, timed out or was discarded; distinct = distinct script")
+                       "bursts filling the queue (busy only if full). Streams multi-pool-option-lists: ONE process creates 2-3 pools one after the other (some later than the first Sends; at least one bigger than 1 and one of default size, any order) and sends bursts to all of them; every NewPool / Send gets a LITERAL option list (defaults mostly omitted, non-positive WithSize/WithRetry/WithTimeout values, repeated options, WithError(nil), WithContextBuilder(nil / builder tagged with an id)); the model computes each pool's and each task's configuration from its own list (apo_create / ato_create) and replays every pool's part of the log with it; the raw-log monitors use the configuration computed from the documented meaning of the options (ants_mp.eff_pool / eff_task), independent of the model; a third of these scripts drop the harness's only reference to one pool right after the last Send to it (tasks still queued or running) and force two GCs -- every accepted task must still complete with its handler's result; half of these scripts force runtime.GC() twice at 1-2 scripted instants while the pools are referenced and used afterwards; handler errors include (as a handler's OWN error before the deadline) the discard error obtained from another busy pool, context.DeadlineExceeded, context.Canceled and a wrapped discard error; one evaluation = one (script, pool). non-trivial = some task retried, failed, timed out or was discarded; distinct = distinct script")
 
 
 def run(chk):
@@ -88,6 +102,7 @@ def run(chk):
             res = run_streams(chk, binary, KINDS_QUICK, scale)
             try:
                 chk.cov["vm_compute_crosschecked"] = ac.coq_crosscheck(chk, res, limit=40 if chk.tier == "quick" else 200)
+                chk.cov["vm_compute_crosschecked_option_lists"] = mp.coq_crosscheck(chk, res, limit=40 if chk.tier == "quick" else 200)
             except Exception as ex:
                 chk.infra_errors.append("vm_compute cross-check failed: %r" % (ex,))
             if chk.tier == "thorough":
@@ -112,6 +127,11 @@ def search(chk):
                 chk.monitor_fail("crash", "one of %d scripts of stream %s" % (len(lines[i:i + 400]), stream), str(e)[-800:], "the pool crashed or deadlocked")
                 return
             for line, out in zip(lines[i:i + 400], impl):
+                if kind.startswith("mp:"):
+                    prompt = all(t.prompt() for t in mp.parse_script(line)[1])
+                    for key, what in mp.monitor_only(line, out, lambda tasks, obs: [m for m in ac.monitor_c08(tasks, obs, None, prompt, []) if m[0] != "get2-bound" or prompt]):
+                        chk.monitor_fail(key, line, out[:2000], what)
+                    continue
                 N, tasks = ac.parse_script(line)
                 obs = ac.Obs(out, len(tasks))
                 probs = ac.structural_problems(tasks, obs)
@@ -122,11 +142,12 @@ def search(chk):
 def replay(chk, path):
     rep = json.load(open(path))
     binary = ac.build(chk)
-    cases = [x["case"] for x in rep.get("failing_inputs", []) + rep.get("divergences", []) if isinstance(x.get("case"), str) and x["case"].startswith("ants ")]
-    res = ac.run_cases(chk, binary, cases)
+    allc = [x["case"] for x in rep.get("failing_inputs", []) + rep.get("divergences", []) if isinstance(x.get("case"), str)]
+    cases = [c for c in allc if c.startswith("ants ")] + [c for c in allc if c.startswith("antsmp ")]
+    res = ac.run_cases(chk, binary, [c for c in allc if c.startswith("ants ")]) + mp.run_cases(chk, binary, [c for c in allc if c.startswith("antsmp ")])
     bad = 0
     for r in res:
-        mons = r.problems + monitors(r)
+        mons = r.problems + (mp.tag(r, monitors(r)) if not r.problems else [])
         print("case=%s\n  impl=%s\n  model=%s\n  monitors=%s compare=%s" % (r.line, r.impl[:1500], (r.model_out or "")[:800], mons, r.note))
         if mons or r.note:
             bad += 1
